@@ -113,6 +113,12 @@ func newHist(r *core.Run, id string) *hist {
 	h.dep = core.NewAccount("dep")
 	accs := append(append([]*core.Account{}, h.users...), h.dep)
 	h.coins = []string{"acoin", "bcoin", "ccoin", "dcoin", "ecoin", ac.IBCCoin}
+	// "squatter" coins: bank denominations that carry the very name the module would give the voucher of an ERC-20
+	// contract deployed later (aggregate/<address>); registering such a coin and then the contract (or the other way
+	// round) must not end with one denomination in two pairs
+	for nonce := uint64(0); nonce < 2; nonce++ {
+		h.coins = append(h.coins, aggtypes.CreateDenom(crypto.CreateAddress(h.dep.Eth, nonce).String()))
+	}
 	h.n = core.NewNode(core.NodeConfig{ChainID: "teleport_9000-1", XIBCName: "teleport", Accounts: accs, MutateGenesis: ac.FundGenesis(accs, h.coins, ac.UserFunds)})
 	h.clk = time.Date(2022, 1, 2, 0, 0, 5, 0, time.UTC)
 	h.n.Begin(h.clk)
